@@ -804,19 +804,46 @@ func listenerBindingRule(r *engine.Report, p *engine.Program, fn *ssa.Function, 
 			"every return of the installed VerifyPeerCertificate closure yields nodeVerify's result or an error found non-nil", why)
 	}
 	// installed iff ClientAuth == RequireAndVerifyClientCert
-	li := fn.Parent()
-	if li == nil {
-		return
-	}
+	// the function that installs this closure as GetConfigForClient: the closure's parent, or a
+	// caller of the parent when the parent is a helper that merely returns the closure
+	var li *ssa.Function
 	var install ssa.Instruction
-	for _, b := range li.Blocks {
-		for _, in := range b.Instrs {
-			if st, ok := in.(*ssa.Store); ok {
-				if fa, ok := st.Addr.(*ssa.FieldAddr); ok && isTLSConfigField(engine.FieldAddrVar(fa), "GetConfigForClient") {
-					install = in
+	isThisClosure := func(v ssa.Value) bool {
+		switch x := v.(type) {
+		case *ssa.MakeClosure:
+			return x.Fn == ssa.Value(fn)
+		case *ssa.Call:
+			callee := x.Common().StaticCallee()
+			if callee == nil || callee != fn.Parent() {
+				return false
+			}
+			for _, ret := range engine.Returns(callee) {
+				if len(ret.Results) != 1 {
+					return false
+				}
+				mc, ok := ret.Results[0].(*ssa.MakeClosure)
+				if !ok || mc.Fn != ssa.Value(fn) {
+					return false
 				}
 			}
+			return true
 		}
+		return false
+	}
+	p.AllInstrs(func(f *ssa.Function, in ssa.Instruction) {
+		if engine.IsMock(f) {
+			return
+		}
+		if st, ok := in.(*ssa.Store); ok {
+			if fa, ok := st.Addr.(*ssa.FieldAddr); ok && isTLSConfigField(engine.FieldAddrVar(fa), "GetConfigForClient") && isThisClosure(st.Val) {
+				install = in
+				li = f
+			}
+		}
+	})
+	if li == nil {
+		r.Add("R5-listener-binding", "listen: node-binding verifier installed for RequireAndVerifyClientCert", fn.Pos(), engine.Violated, "the per-client config callback holding the node-binding verifier is never stored into a tls.Config.GetConfigForClient")
+		return
 	}
 	req, _ := engine.IntCmpEdges(li, func(v ssa.Value) bool { f, _ := engine.FieldOfLoad(v); return isTLSConfigField(f, "ClientAuth") }, 0, token.EQL, 4)
 	okInst := install != nil && len(req) > 0
